@@ -477,3 +477,44 @@ CONTRACTS.update({
         },
     ),
 })
+
+
+# ---------------------------------------------------------------- graph construction: output chain, dynamic partition hook-up
+CONTRACTS.update({
+    "IrEquation.get_output": dict(params=["self"], returns="TensorF", assumed=True, observer=True),
+    "Program.apply_all_partitioning": dict(params=["self", "tensor"], assumed=True, modifies=[], returns="None"),
+    "Program.apply_partitioning": dict(params=["self", "tensor", "ranks"], assumed=True, modifies=[], returns="None"),
+    "LoopOrder.apply": dict(params=["self", "tensor"], assumed=True, modifies=[], returns="None"),
+    "TensorF.fiber_name": dict(params=["self"], returns="str", assumed=True, pure=True),
+    "TensorF.get_ranks": dict(params=["self"], returns="List[str]", assumed=True, pure=True, fresh_result=True),
+    "TensorF.from_fiber": dict(params=["self"], returns="None", assumed=True, modifies=[]),
+    "FlowGraph.__build_swizzle_root_fiber": dict(params=["self", "tensor", "static"], returns="None", assumed=True,
+                                                 modifies=["self.graph.g_edges[]"],
+                                                 ensures=["all(e in self.graph.g_edges for e in old(self.graph.g_edges))"]),
+    # the output: Output -> TensorNode -> GetRootNode -> its first fiber
+    "FlowGraph.__build_output": dict(
+        modifies=["self.graph.g_edges[]"],
+        ensures_env="exit",
+        ensures=[("output_chain",
+                  "(OtherNode('Output'), TensorNode(root)) in self.graph.g_edges and "
+                  "(TensorNode(root), get_root_node) in self.graph.g_edges and "
+                  "isinstance(get_root_node, GetRootNode) and cast(GetRootNode, get_root_node).tensor == root and "
+                  "root == self.program.get_equation().get_output().root_name()"),
+                 ("nothing_removed", "all(e in self.graph.g_edges for e in old(self.graph.g_edges))")],
+    ),
+    # a dynamically partitioned tensor is re-wrapped from the fiber it had on entry, then partitioned:
+    # FiberNode(<fiber on entry>) -> FromFiberNode(tensor, rank) -> PartNode(tensor, (rank,))
+    "FlowGraph.__connect_dyn_part": dict(
+        kinds={"tensor": "TensorF", "flatten_info": "Dict[str, List[Any]]"},
+        requires=["tensor.root_name() in flatten_info"],
+        modifies=["self.graph.g_edges[]", "flatten_info[tensor.root_name()][]"],
+        abstract_loops={0: dict(modifies=["flatten_info[tensor.root_name()][]"],
+                                why="applies the flattenings that became available (tensor state only; no edge is added)")},
+        ensures_env="exit",
+        ensures=[("rewrap_then_partition",
+                  "(fiber_node, FromFiberNode(root, rank)) in self.graph.g_edges and "
+                  "(FromFiberNode(root, rank), PartNode(root, (rank,))) in self.graph.g_edges and "
+                  "isinstance(fiber_node, FiberNode) and root == tensor.root_name()"),
+                 ("nothing_removed", "all(e in self.graph.g_edges for e in old(self.graph.g_edges))")],
+    ),
+})
